@@ -69,6 +69,9 @@ type propMeta struct {
 }
 
 func loadKnown() []knownFinding {
+	if os.Getenv("VERIF_IGNORE_KNOWN") != "" {
+		return nil // used once to produce the replay file of a finding
+	}
 	b, err := os.ReadFile(filepath.Join(verifDir(), "known_findings.json"))
 	if err != nil {
 		return nil
